@@ -3,6 +3,10 @@ Error-handling utility code.
 """
 
 from inspect import getmro
+from contextvars import ContextVar
+
+# True while the traceback of a failed extractor is being logged:
+_LOGGING_EXTRACTOR_FAILURE = ContextVar("eliot.extractor_failure", default=False)
 
 
 class ErrorExtraction(object):
@@ -45,7 +49,14 @@ class ErrorExtraction(object):
                 except:
                     from ._traceback import write_traceback
 
-                    write_traceback(logger)
+                    # Logging the traceback does extraction on the extractor's
+                    # own exception; if that fails too, don't recurse forever:
+                    if not _LOGGING_EXTRACTOR_FAILURE.get():
+                        token = _LOGGING_EXTRACTOR_FAILURE.set(True)
+                        try:
+                            write_traceback(logger)
+                        finally:
+                            _LOGGING_EXTRACTOR_FAILURE.reset(token)
                     return {}
         return {}
 
